@@ -14,9 +14,9 @@ RULE = ("cases are generated from TLC behaviours of spec/WAL.tla (Write/WriteSyn
         "fault case is distinct; all are non-trivial (each decodes a log with >= 1 line through the real WALReader)")
 
 
-def replay(ctx, binary, behs, label, tmp, allvalues=False):
+def replay(ctx, binary, behs, label, tmp, allvalues=False, mode="replay"):
     env = {"TMPDIR": tmp} if tmp else None
-    args = ["-x", "allvalues"] if allvalues else []
+    args = ["-mode", mode] + (["-x", "allvalues"] if allvalues else [])
     res = vlib.run_driver(ctx, binary, args, behaviours=behs, env_extra=env, timeout=3000)
     s = vlib.handle_driver_results(ctx, res)
     ctx.add("traces_validated_against_impl", int(s.get("replays", 0)))
@@ -51,18 +51,20 @@ def _run(ctx, binary, tmp):
         ctx.sample(case["steps"])
         return
     quick = ctx.tier == "quick"
-    cfg = "WAL_q.cfg" if quick else "WAL_t.cfg"
-    r = vlib.run_tlc(ctx, "MCWAL", cfg, timeout=3000)
-    vlib.require_model_ok(r, cfg)
-    ctx.add_tlc(r, "exhaustive " + cfg)
+    if not quick:   # quick: the edge run below is itself exhaustive with all invariants
+        for cfg in ("WAL_q.cfg", "WAL_t.cfg"):
+            r = vlib.run_tlc(ctx, "MCWAL", cfg, timeout=3000)
+            vlib.require_model_ok(r, cfg)
+            ctx.add_tlc(r, "exhaustive " + cfg)
     ecfg = "WAL_qe.cfg" if quick else "WAL_te.cfg"
     r = vlib.run_tlc(ctx, "MCWAL", ecfg, tags=("EDGE",), timeout=3000)
     vlib.require_model_ok(r, ecfg)
     ctx.add_tlc(r, "exhaustive+edges " + ecfg)
     ctx.add("edges_emitted", len(r.traces))
-    replay(ctx, binary, vlib.dedup_prefix(r.traces), "edges", tmp, allvalues=not quick)
+    # one behaviour per edge, compared at its last step: every transition is checked exactly once
+    replay(ctx, binary, r.traces, "edges", tmp, allvalues=not quick, mode="last")
     # long logs over many files: the backwards/binary search of SearchForHeight
-    n = 150 if quick else 4000
+    n = 100 if quick else 4000
     r = vlib.run_tlc(ctx, "MCWAL", "WAL_sim.cfg", mode="simulate", simulate=n, depth=40, tags=("TRACE",), timeout=1800)
     vlib.require_model_ok(r, "WAL_sim")
     ctx.add_tlc(r, "simulate <=30 steps, <=12 files, markers 0..6")
